@@ -27,6 +27,10 @@ import (
 	"time"
 
 	accessgateway "github.com/WuKongIM/WuKongIM/internal/access/gateway"
+	"github.com/WuKongIM/WuKongIM/internal/contracts/authority"
+	channelappendcontract "github.com/WuKongIM/WuKongIM/internal/contracts/channelappend"
+	"github.com/WuKongIM/WuKongIM/internal/contracts/onlinedelivery"
+	"github.com/WuKongIM/WuKongIM/internal/runtime/delivery"
 	"github.com/WuKongIM/WuKongIM/internal/runtime/channelappend"
 	"github.com/WuKongIM/WuKongIM/internal/usecase/message"
 	"github.com/WuKongIM/WuKongIM/pkg/gateway/core"
@@ -378,4 +382,118 @@ func c41GwStop(f []string) string {
 	gw.log.mu.Lock()
 	defer gw.log.mu.Unlock()
 	return "ev=" + strings.Join(gw.log.tok, ",")
+}
+
+// ------------------------------------------------------------- quiesce ---
+// op `quiesce <ackDelayMs> <seed>`: the REAL delivery.Runtime with fake presence / session ports.  One durable plan
+// is admitted; its presence lookup is held; Quiesce is called; the lookup is released; the plan writes to the local
+// session (binding a pending RECVACK); the RECVACK arrives <ackDelayMs> later.  Quiesce may report completion
+// only when no pending RECVACK is left.  tokens: qn plan admitted  qw session write accepted  qa RECVACK sent
+// qb Quiesce begins  qe.<n> Quiesce returned nil with n pending RECVACKs in the tracker  qh Quiesce hung (20 s)
+
+type c41Delivery struct {
+	log     *c41Log
+	entered chan struct{}
+	gate    chan struct{}
+	once    sync.Once
+	wrote   chan struct{}
+	wonce   sync.Once
+}
+
+func (d *c41Delivery) EndpointsByTargets(_ context.Context, targets []onlinedelivery.RecipientTargetBatch) []delivery.TargetPresenceResult {
+	d.once.Do(func() { close(d.entered) })
+	select {
+	case <-d.gate:
+	case <-time.After(10 * time.Second):
+	}
+	out := make([]delivery.TargetPresenceResult, len(targets))
+	for i, t := range targets {
+		for k, rc := range t.Recipients {
+			out[i].Routes = append(out[i].Routes, onlinedelivery.Route{UID: rc.UID, OwnerNodeID: 1, OwnerBootID: 1, OwnerSeq: 1, SessionID: uint64(11 + k)})
+		}
+	}
+	return out
+}
+
+func (d *c41Delivery) WriteSession(_ context.Context, w delivery.LocalSessionWrite) delivery.SessionWriteResult {
+	d.log.add("qw")
+	defer d.wonce.Do(func() { close(d.wrote) })
+	return delivery.SessionWriteResult{Disposition: delivery.SessionWriteAccepted}
+}
+
+func (d *c41Delivery) PushOwner(context.Context, onlinedelivery.OwnerPush) (onlinedelivery.OwnerPushResult, error) {
+	return onlinedelivery.OwnerPushResult{}, nil
+}
+
+func (d *c41Delivery) ObserveOfflineRecipients(context.Context, delivery.OfflineRecipientsEvent) {}
+
+func c41Quiesce(f []string) string {
+	if len(f) != 2 {
+		return "bad-op"
+	}
+	ackDelay, err := strconv.Atoi(f[0])
+	if err != nil || ackDelay < 1 || ackDelay > 200 {
+		return "bad-op"
+	}
+	if _, err := strconv.ParseUint(f[1], 10, 64); err != nil {
+		return "bad-op"
+	}
+	d := &c41Delivery{log: &c41Log{}, entered: make(chan struct{}), gate: make(chan struct{}), wrote: make(chan struct{})}
+	rt := delivery.NewRuntime(delivery.RuntimeOptions{
+		LocalNodeID: 1, Presence: d, RemoteOwnerPusher: d, SessionWriter: d, OfflineRecipientsObserver: d,
+		QueueSize: 8, Workers: 2, PlanTimeout: 10 * time.Minute, MaxPlanRecipients: 64,
+		OwnerPushBatchSize: 8, OwnerConcurrency: 2, RetryMaxAttempts: 2,
+		RetryInitialBackoff: 20 * time.Microsecond, RetryMaxBackoff: 200 * time.Microsecond,
+	})
+	if err := rt.Start(context.Background()); err != nil {
+		return "start-failed"
+	}
+	plan := onlinedelivery.RecipientDeliveryPlan{
+		Mode:  onlinedelivery.ModeDurable,
+		Event: channelappendcontract.CommittedEnvelope{MessageID: 1001, MessageSeq: 1, ChannelID: "c1", ChannelType: 2, FromUID: "u9", Payload: []byte("x")},
+		Targets: []onlinedelivery.RecipientTargetBatch{{
+			Target:     authority.Target{HashSlot: 0, SlotID: 0, LeaderNodeID: 1, RouteRevision: 1},
+			Recipients: []channelappendcontract.Recipient{{UID: "u1"}},
+		}},
+	}
+	if err := rt.EnqueueRecipientDeliveryPlan(context.Background(), plan); err != nil {
+		return "enqueue-failed"
+	}
+	d.log.add("qn")
+	select { // the plan is inside its presence resolution
+	case <-d.entered:
+	case <-time.After(5 * time.Second):
+	}
+	d.log.add("qb")
+	qdone := make(chan struct{})
+	go func() {
+		err := rt.Quiesce(context.Background())
+		n := rt.PendingAckCount()
+		if err == nil {
+			d.log.add("qe.%d", n)
+		} else {
+			d.log.add("qe.999")
+		}
+		close(qdone)
+	}()
+	time.Sleep(5 * time.Millisecond) // the drain goroutine is running; only widens, never asserted on
+	close(d.gate)
+	select {
+	case <-d.wrote:
+	case <-time.After(5 * time.Second):
+	}
+	time.Sleep(time.Duration(ackDelay) * time.Millisecond)
+	d.log.add("qa")
+	_ = rt.Recvack(context.Background(), delivery.Recvack{UID: "u1", SessionID: 11, MessageID: 1001, MessageSeq: 1})
+	select {
+	case <-qdone:
+	case <-time.After(20 * time.Second):
+		d.log.add("qh")
+	}
+	sctx, cancel := context.WithTimeout(context.Background(), 10*time.Second)
+	_ = rt.Stop(sctx)
+	cancel()
+	d.log.mu.Lock()
+	defer d.log.mu.Unlock()
+	return "ev=" + strings.Join(d.log.tok, ",")
 }
